@@ -70,36 +70,69 @@ Theorem C07_inf_bound_sound : forall (V : Type) line p a b (F : V -> Z),
 Proof. exact inf_bound_sound. Qed.
 Print Assumptions C07_inf_bound_sound.
 
-(* GRAPH LEVEL: on an array-free graph accepted by the validator
-   DegJustify.djust_cfg (which the check runs on the implementation's real
-   annotated graph), in every state reachable by the step relation of
-   Spec.DegSem - cells hold their value as a function of the valuation; signals
-   and component ports are independent indeterminates; the control flow does not
-   depend on the valuation - the upper end of every degree range attached to a
-   node bounds the degree of the node's value.  For a range whose upper end is
-   Quadratic this is exactly "the expression is a polynomial of total degree at
-   most two in the signals", the claim behind `unnecessary signal assignment`. *)
+(* GRAPH LEVEL: on a graph accepted by the validator DegJustify.djust_cfg (which
+   the check runs on the implementation's real annotated graph; array forms
+   included), in every state reachable by the step relation of Spec.DegSem - cells
+   hold their value, element by element, as a function of the valuation; signals and
+   component ports are independent indeterminates; never-assigned locals hold zeros;
+   the control flow does not depend on the valuation - the upper end of every degree
+   range attached to a node bounds the degree of the node's value, of EVERY element
+   of it for an array.  For a range whose upper end is Quadratic this is exactly
+   "the expression is a polynomial of total degree at most two in the signals", the
+   claim behind `unnecessary signal assignment`.  [name_code] places component ports
+   in the family of a component; the statement holds for every such placement. *)
 Theorem C07_validated_graph_degrees_true :
   forall (V : Type) (line : V -> V -> Z -> V) (p : Z)
-         (sem2 : infix_op -> Z -> Z -> Z) (sem1 : prefix_op -> Z -> Z) (call_sem : ident -> list Z -> Z),
+         (sem2 : infix_op -> Z -> Z -> Z) (sem1 : prefix_op -> Z -> Z) (call_sem : ident -> list Z -> Z)
+         (name_code : ident -> Z),
   (forall op, op_den p op (sem2 op)) -> (forall op, prefix_den p op (sem1 op)) ->
   forall c, djust_cfg c = true ->
   forall s0 s e F r,
-  finit_ok V line p c s0 -> freachable V p sem2 sem1 call_sem c s0 s ->
-  djust_expr c e = true -> den V p sem2 sem1 call_sem s e = Some F -> expr_deg e = Some r ->
-  SemDeg V line p (snd r) F.
+  finit_ok V line p c s0 -> freachable V p sem2 sem1 call_sem name_code c s0 s ->
+  djust_expr c e = true -> den V p sem2 sem1 call_sem name_code s e = Some F -> expr_deg e = Some r ->
+  forall i, SemDeg V line p (snd r) (F i).
 Proof. exact justified_degrees_true. Qed.
 Print Assumptions C07_validated_graph_degrees_true.
 
 (* the step relation keeps every cell within the range its reads carry *)
 Theorem C07_step_preserves :
   forall (V : Type) (line : V -> V -> Z -> V) (p : Z)
-         (sem2 : infix_op -> Z -> Z -> Z) (sem1 : prefix_op -> Z -> Z) (call_sem : ident -> list Z -> Z),
+         (sem2 : infix_op -> Z -> Z -> Z) (sem1 : prefix_op -> Z -> Z) (call_sem : ident -> list Z -> Z)
+         (name_code : ident -> Z),
   (forall op, op_den p op (sem2 op)) -> (forall op, prefix_den p op (sem1 op)) ->
   forall c, djust_cfg c = true ->
-  forall s s', fstore_ok V line p c s -> fstep V p sem2 sem1 call_sem c s s' -> fstore_ok V line p c s'.
+  forall s s', fstore_ok V line p c s -> fstep V p sem2 sem1 call_sem name_code c s s' -> fstore_ok V line p c s'.
 Proof. exact fstep_preserves. Qed.
 Print Assumptions C07_step_preserves.
+
+(* a selection by data that do not depend on the valuation (a constant condition, a
+   constant array index) among functions within a bound stays within it *)
+Theorem C07_selection_sound :
+  forall (V : Type) (line : V -> V -> Z -> V) (p : Z) (X : Type) d (K : V -> X) (H : X -> V -> Z),
+  (forall r r', K r = K r') -> (forall x, SemDeg V line p d (H x)) -> SemDeg V line p d (fun rho => H (K rho) rho).
+Proof. exact select_general. Qed.
+Print Assumptions C07_selection_sound.
+
+(* non-vacuity for arrays: t.0 = [1, 2]; b <-- t.0[IDX] with a the signal. Reading at
+   the literal index 0 may carry the array's constant range; reading at the signal a
+   may not (it is what the repaired defect 920512c claimed), but may carry an upper end
+   non-quadratic *)
+Definition exa_k (d : option drange) : know := {| kval := None; kdeg := d |}.
+Definition exa_t0 : vname := {| vn_name := [116%N]; vn_suffix := None; vn_version := Some 0%N |}.
+Definition exa_a : vname := {| vn_name := [97%N]; vn_suffix := None; vn_version := None |}.
+Definition exa_b : vname := {| vn_name := [98%N]; vn_suffix := None; vn_version := None |}.
+Definition exa_m : meta := {| m_start := 0%N; m_end := 0%N; m_file := None |}.
+Definition exa_cc : option drange := Some (DConst, DConst).
+Definition exa_graph (idx : expr) (claim : option drange) : cfg :=
+  {| c_kind := KTemplate; c_params := []; c_decls := [(exa_t0, TLocal); (exa_a, TSigIn); (exa_b, TSigOut)];
+     c_blocks := [ {| b_index := 0%N; b_depth := 0%N; b_preds := []; b_succs := [];
+       b_stmts := [ SSubst exa_m exa_t0 OpVar (EArray [ENum 1 (exa_k exa_cc); ENum 2 (exa_k exa_cc)] (exa_k exa_cc)) None (Some TLocal);
+                    SSubst exa_m exa_b OpSig (EAccess exa_t0 [AIdx idx] (exa_k claim)) None (Some TSigOut) ] |} ] |}.
+Example C07_array_index_matters :
+  djust_cfg (exa_graph (ENum 0 (exa_k exa_cc)) exa_cc) = true /\
+  djust_cfg (exa_graph (EVar exa_a (exa_k (Some (DLin, DLin)))) exa_cc) = false /\
+  djust_cfg (exa_graph (EVar exa_a (exa_k (Some (DLin, DLin)))) (Some (DConst, DNonQuad))) = true.
+Proof. vm_compute. repeat split; reflexivity. Qed.
 
 (* non-vacuity: over valuations Z with line rho delta t = rho + t*delta, the
    identity has degree 1, its square degree 2, and the square is not linear mod 7 *)
@@ -113,10 +146,7 @@ Proof.
   - intros H. specialize (H 0 1 0). vm_compute in H. discriminate.
 Qed.
 
-(* Not reached by proof (reported as open statements in the evidence): array
-   forms (excluded from the validator; since /repo 920512c their degree is the join
-   over the indices and every earlier element, exercised by the mirror
-   correspondence and the finite-difference oracle only), joins
+(* Not reached by proof (reported as open statements in the evidence): joins
    under signal-dependent control (outside the step relation: known finding
    C07-ctl-merge), and a universal theorem that Model.Propagate's degree passes
    always produce a graph accepted by djust_cfg (established per explored
